@@ -150,6 +150,7 @@ pub fn framing_label(f: &Framing) -> String {
     }
 }
 
+static FIDELITY_RETRIES: std::sync::atomic::AtomicU64 = std::sync::atomic::AtomicU64::new(0);
 static FIDELITY: std::sync::atomic::AtomicU64 = std::sync::atomic::AtomicU64::new(0);
 
 pub struct C02;
@@ -183,6 +184,7 @@ impl Prop for C02 {
 
     fn extra_evidence(&self) -> serde_json::Value {
         serde_json::json!({"traces_validated_against_impl": FIDELITY.load(std::sync::atomic::Ordering::Relaxed),
+                           "traces_retried_after_a_differing_real_socket_run": FIDELITY_RETRIES.load(std::sync::atomic::Ordering::Relaxed),
                            "traces_validated_note": "cases replayed over real loopback UDP sockets with the same reference server; the result must equal the scripted-transport result"})
     }
 
@@ -294,17 +296,35 @@ impl Prop for C02 {
                 if o.failure.is_none() && crate::runner::digest(st.info.name.as_bytes()) % 64 == 0 && st.rules.len() < 200 {
                     let st2 = st.clone();
                     let lo: IpAddr = std::net::Ipv4Addr::LOCALHOST.into();
-                    if let Some(real) = crate::realnet::RealServer::start(gamedig::verif_hook::Proto::Udp, lo, Box::new(move || Box::new(ValveServer::from_state(&st2).expect("compressor was available")))) {
+                    // (datagrams can be dropped on a loaded machine when a burst exceeds the receive buffer: a differing outcome is retried with a fresh server)
+                    let mut last = String::new();
+                    let mut same = false;
+                    for _attempt in 0 .. 3 {
+                        let st3 = st2.clone();
+                        let Some(real) = crate::realnet::RealServer::start(gamedig::verif_hook::Proto::Udp, lo, Box::new(move || Box::new(ValveServer::from_state(&st3).expect("compressor was available")))) else {
+                            same = true;
+                            break;
+                        };
                         let raddr = real.addr;
                         let t = gamedig::protocols::types::TimeoutSettings::new(Some(std::time::Duration::from_secs(3)), Some(std::time::Duration::from_secs(3)), None, 0).ok();
                         let r2 = crate::wire::run_plain(|| valve::query(&raddr, engine, Some(gather), t));
                         match (&run.ended, &r2.ended) {
                             (crate::wire::Ended::Ok(a), crate::wire::Ended::Ok(b)) if a == b => {
                                 FIDELITY.fetch_add(1, std::sync::atomic::Ordering::Relaxed);
+                                same = true;
                             }
-                            (_, crate::wire::Ended::Err(gamedig::GDErrorKind::PacketReceive)) => {}
-                            (a, b) => panic!("transport fidelity: scripted wire gives {} but real loopback sockets give {}", a.kind_str(), b.kind_str()),
+                            (_, crate::wire::Ended::Err(gamedig::GDErrorKind::PacketReceive)) => same = true,
+                            (a, b) => last = format!("scripted wire gives {} but real loopback sockets give {}", a.kind_str(), b.kind_str()),
                         }
+                        if same {
+                            break;
+                        }
+                        FIDELITY_RETRIES.fetch_add(1, std::sync::atomic::Ordering::Relaxed);
+                    }
+                    if !same {
+                        let _ = std::fs::create_dir_all("/verif/out");
+                        let _ = std::fs::write("/verif/out/fidelity-mismatch-C02.json", serde_json::to_string(&case).unwrap_or_default());
+                        panic!("transport fidelity: {last}");
                     }
                 }
             }
